@@ -242,7 +242,20 @@ void SPxSolverBase<R>::getLeaveVals(
 
       case SPxBasisBase<R>::Desc::P_FREE :
          assert(rep() == ROW);
-         throw SPxInternalCodeException("XLEAVE01 This should never happen.");
+         ds.rowStatus(leaveNum) = this->dualRowStatus(leaveNum);
+
+         if((*theFvec)[leaveIdx] < theLBbound[leaveIdx])
+         {
+            leavebound = theLBbound[leaveIdx];
+            leaveMax = R(-infinity);
+         }
+         else
+         {
+            leavebound = theUBbound[leaveIdx];
+            leaveMax = R(infinity);
+         }
+
+         break;
 
       case SPxBasisBase<R>::Desc::D_FREE :
          assert(rep() == COLUMN);
@@ -507,16 +520,16 @@ void SPxSolverBase<R>::getLeaveVals2(
 
       case SPxBasisBase<R>::Desc::P_FREE :
          assert(rep() == COLUMN);
-#if 1
-         throw SPxInternalCodeException("XLEAVE04 This should never happen.");
-#else
-         SPX_MSG_ERROR(std::cerr << "ELEAVE53 ERROR: not yet debugged!" << std::endl;)
          ds.rowStatus(idx) = this->dualRowStatus(idx);
-         newCoPrhs = theURbound[idx];        // slack !!
-         newUBbound = R(infinity);
-         newLBbound = R(-infinity);
+
+         if(theCoPvec->delta()[idx] * leaveMax > 0)
+            newCoPrhs = theURbound[idx];
+         else
+            newCoPrhs = theLRbound[idx];
+
+         newUBbound = -this->lhs(idx);       // slack !!
+         newLBbound = -this->rhs(idx);
          enterBound = 0;
-#endif
          break;
 
       case SPxBasisBase<R>::Desc::P_FIXED :
